@@ -60,6 +60,13 @@ def recording_case(ctx, seed):
                 ctx.violation('saved recording not listed on %s cassette' % kind, w)
             ctx.count('fetches_after_a_lookup')
         r1 = reader.get_recording(rec.id)
+        if seed % 5 == 2:
+            # the holder closes the fetched recording (it will not write to it) and goes on reading from it
+            try:
+                r1.close()
+                ctx.count('reads_from_a_fetched_recording_that_was_closed')
+            except Exception:
+                pass
         handed = []
         for k in sorted(model_d):
             v1 = r1.get_data(k)
@@ -591,6 +598,9 @@ def copy_case(ctx, seed):
     if (seed // 5) % 3 == 2:
         prog['params']['copy_set_later'] = True       # the flag is switched on, on the registered settings object, after the registration
         ctx.count('copy_cases_with_the_flag_switched_on_after_registration')
+    if (seed // 7) % 4 == 3 and not prog['params'].get('copy_set_later'):
+        prog['params']['with_keyword'] = True
+        ctx.count('copy_cases_registered_with_an_object_and_a_keyword')
     variant = (seed // 3) % 4
     if (seed // 12) % 3 == 1:
         prog['base_params'] = {'copy': False, 'rate': 1.0}     # the class extends a configured base class that does NOT copy
